@@ -228,6 +228,9 @@ type vfExchange struct {
 	Streams []*vfH2Stream
 	Steps   []vfStep
 	GoAway  *uint32 // last stream id, if a GOAWAY ends the exchange
+	// GoAwayGraceful: the real limit is preceded by GOAWAY(2^31-1, NO_ERROR) (graceful shutdown as grpc-go and x/net/http2 do it)
+	GoAwayGraceful bool
+	GoAwayCode     http2.ErrCode
 }
 
 func vfGenExchange(r *verifkit.Rand, allowCont bool) *vfExchange {
@@ -268,6 +271,8 @@ func vfGenExchange(r *verifkit.Rand, allowCont bool) *vfExchange {
 		s := &vfH2Stream{ID: nextID, Name: "Suite/open-at-goaway", ReqMsgs: mkMsgs(), End: "goaway"}
 		last := nextID - 2
 		ex.GoAway = &last
+		ex.GoAwayGraceful = r.Chance(1, 2)
+		ex.GoAwayCode = verifkit.Pick(r, []http2.ErrCode{http2.ErrCodeEnhanceYourCalm, http2.ErrCodeNo, http2.ErrCodeInternal})
 		ex.Streams = append(ex.Streams, s)
 	}
 	// per-stream queues; a retry stream starts only after the refused attempt was reset
@@ -367,7 +372,11 @@ func vfGenExchange(r *verifkit.Rand, allowCont bool) *vfExchange {
 		case "winupdate":
 			_ = d.fr.WriteWindowUpdate(0, 1000)
 		case "goaway":
-			_ = d.fr.WriteGoAway(*ex.GoAway, http2.ErrCodeEnhanceYourCalm, []byte("bye"))
+			if ex.GoAwayGraceful {
+				_ = d.fr.WriteGoAway(1<<31-1, http2.ErrCodeNo, nil)
+				_ = d.fr.WritePing(false, [8]byte{9})
+			}
+			_ = d.fr.WriteGoAway(*ex.GoAway, ex.GoAwayCode, []byte("bye"))
 		}
 		desc := in.Kind
 		if in.St != nil {
@@ -732,8 +741,15 @@ func TestVerifC15Exchanges(t *testing.T) {
 							rep.Violation("h2/terminal/reset", fmt.Sprintf("stream %q was reset (%s) but the trace's error is %v", name, exp.Terminal, tr.Err), ww)
 						}
 					case exp.Terminal == "goaway":
+						var ce http2.ConnectionError
 						if tr.Err == nil {
 							rep.Violation("h2/terminal/goaway", fmt.Sprintf("stream %q was cut off by GOAWAY but the trace has no error", name), ww)
+						} else if !errors.As(tr.Err, &ce) || http2.ErrCode(ce) != ex.GoAwayCode {
+							ww["graceful_two_goaways"] = ex.GoAwayGraceful
+							rep.Violation("h2/terminal/goaway-not-attributed", fmt.Sprintf("stream %q was cut off by GOAWAY(code %v) but the trace's error is %v", name, ex.GoAwayCode, tr.Err), ww)
+						}
+						if ex.GoAwayGraceful {
+							rep.Count("stream:goaway-graceful", 1)
 						}
 					}
 				}
@@ -789,7 +805,7 @@ func vfGenExchangeTwo(spec, sched *verifkit.Rand, allowCont bool) vfExAndOrder {
 
 func vfGenExchangeSpecs(r *verifkit.Rand, allowCont bool) *vfExchange {
 	tmp := vfGenExchange(r, allowCont) // (its steps are discarded; only the stream list and GoAway are kept)
-	return &vfExchange{Streams: tmp.Streams, GoAway: tmp.GoAway}
+	return &vfExchange{Streams: tmp.Streams, GoAway: tmp.GoAway, GoAwayGraceful: tmp.GoAwayGraceful, GoAwayCode: tmp.GoAwayCode}
 }
 
 func vfSchedule(ex *vfExchange, r *verifkit.Rand) []vfIntentRef {
@@ -885,7 +901,11 @@ func vfSchedule(ex *vfExchange, r *verifkit.Rand) []vfIntentRef {
 		case "winupdate":
 			_ = d.fr.WriteWindowUpdate(0, 1000)
 		case "goaway":
-			_ = d.fr.WriteGoAway(*ex.GoAway, http2.ErrCodeEnhanceYourCalm, []byte("bye"))
+			if ex.GoAwayGraceful {
+				_ = d.fr.WriteGoAway(1<<31-1, http2.ErrCodeNo, nil)
+				_ = d.fr.WritePing(false, [8]byte{9})
+			}
+			_ = d.fr.WriteGoAway(*ex.GoAway, ex.GoAwayCode, []byte("bye"))
 		}
 		desc := in.Kind
 		if in.St != nil {
